@@ -23,6 +23,10 @@ CLAIMED = {
          "Content/position theorems for every token list; old parser and old walk order are trusted; three recorded findings (annotation comments dropped, string escapes, `mixin` keyword) are keyed by verified signature.",
          "Trusted: Lean kernel; the previous-grammar parser; tools/gen.py extraction of Migrator::migratable.",
          "DESIGN.md §4 C23"),
+ "C28": ("proof", "Lean 4 proof about a character-for-character model of the Wadler renderer (termination, content in order, break-only text, anchor positions, anchor order) + correspondence (hx pretty vs vmodel pretty on random Docs and on the real formatter/emitter Docs captured by the Doc tap hook) + property oracle on the real output",
+         "All Doc trees × RenderOpts by structural/measure induction; false full statements (anchor after removed trailing pads, fits_flat with pending indent) kept as proved negations next to the partial theorems that hold.",
+         "Trusted: Lean kernel; Rust str::split/trim/matches semantics; integer overflow of counters not modelled; harness oracle.",
+         "DESIGN.md §4 C28"),
 }
 
 HOLD = {"C23"}      # built, waiting for a green run on the current tree
